@@ -82,6 +82,7 @@ type ruler struct {
 	s       *oblig.Set
 	pos     string
 	seen13d bool
+	seen13e bool
 }
 
 func (r *ruler) key(op, what string) string { return "vm.Run / " + op + " / " + what }
@@ -296,18 +297,21 @@ func (r *ruler) v4() {
 			for _, e := range events(pa, "fetch", "") {
 				fetched = append([]string{e.Res}, fetched...)
 			}
-			var shown []string
-			for _, a := range last.Args[3:] {
-				if a != "TMP" {
-					shown = append(shown, a)
+			// an instruction that takes its left operand from the temp register
+			// saw that value too: it leads the operands of the report (D34)
+			for _, e := range pa.Events {
+				if e.Kind == "call" && strings.Contains(e.Fn, "value.Type).") && len(e.Args) > 0 && e.Args[0] == "TMP" {
+					fetched = append([]string{"TMP"}, fetched...)
+					break
 				}
 			}
+			shown := last.Args[3:]
 			errKey := absint.Key(pa.Ret[1])
 			ok := last.Args[0] == "&CTX[]" && last.Args[1] == "IP" && last.Args[2] == errKey && strings.Join(shown, ",") == strings.Join(fetched, ",")
 			if ok {
 				r.s.OK("V4", key, r.m.P.Pos(last.Pos), "dumpStack(current context, current ip, the error returned, operands "+strings.Join(last.Args[3:], ",")+")")
 			} else {
-				r.s.Bad("V4", key, r.m.P.Pos(last.Pos), fmt.Sprintf("dumpStack(%s) but context must be the current one (&CTX[]), ip the failing one (IP), the error the returned one (%s) and the values the fetched operands in descending slot order (%s)", strings.Join(last.Args, ", "), errKey, strings.Join(fetched, ",")), pa.Describe()...)
+				r.s.Bad("V4", key, r.m.P.Pos(last.Pos), fmt.Sprintf("dumpStack(%s) but context must be the current one (&CTX[]), ip the failing one (IP), the error the returned one (%s) and the values the operands the instruction saw - the temp register first when it is the left operand, then the fetched operands in descending slot order (%s)", strings.Join(last.Args, ", "), errKey, strings.Join(fetched, ",")), pa.Describe()...)
 			}
 		}
 	}
@@ -753,6 +757,30 @@ func (r *ruler) v7() {
 					r.s.Bad("V13d", k13d, r.ppos(pa), "the private copy of the captured frame is shallow (slices.Clone): a function value held in one of its slots - a closure that calls a sibling closure defined in the same function - keeps its own pointer to the frame that is being popped, and reads whatever later calls leave there", pa.Describe()...)
 				}
 			}
+			if cloned13(pa) && !r.seen13e {
+				// V13e: only the frame that dies is detached. A function that is
+				// merely handed through a call (id = (x) -> x; h = id(g) inside the
+				// function that defines g) captured the frame of a call that is
+				// still running: copying it there freezes the variables for h while
+				// g and the defining function go on changing them (D32).
+				r.seen13e = true
+				k13e := "vm.Run / RET / detaches a function only from the frame that is popped"
+				asks := false
+				for _, e := range pa.Events {
+					if e.Kind == "call" && (strings.Contains(e.Fn, "memory.Type).Top") || strings.Contains(e.Fn, "IsTop") || strings.Contains(e.Fn, "InTop") || strings.Contains(e.Fn, "Owns") || strings.Contains(e.Fn, "owns")) {
+						for _, c := range pa.Conds {
+							if e.Res != "" && strings.Contains(c, strings.Trim(strings.Split(e.Res, ", ")[0], "()")) {
+								asks = true
+							}
+						}
+					}
+				}
+				if asks {
+					r.s.OK("V13e", k13e, r.ppos(pa), "the copy is made under a test that relates the captured frame to the frame of the returning call")
+				} else {
+					r.s.Bad("V13e", k13e, r.ppos(pa), "RET copies the captured frame of every function value it returns, also of one that captured the frame of a call that is still running (a function handed through another function): the copy freezes the captured variables for that value while the defining function goes on writing them", pa.Describe()...)
+				}
+			}
 			if good {
 				r.s.OK("V13", k13, r.ppos(pa), "the captured frame of a returned function is copied (slices.Clone of its own frame) before the frame is popped")
 			} else {
@@ -782,6 +810,11 @@ func (r *ruler) v7() {
 		}
 		break
 	}
+}
+
+// cloned13: the path gives a returned function a copy of its frame.
+func cloned13(pa *Path) bool {
+	return len(events(pa, "call", "slices.Clone")) > 0
 }
 
 // V10: error classes decided in the VM itself.
